@@ -147,6 +147,10 @@ def check_C03(ctx):
         raise Infra('no batch-heavy program generated')
     classes = [crash.CRASH_CLASSES[4], crash.CRASH_CLASSES[0], crash.CRASH_CLASSES[3], crash.CRASH_CLASSES[2]]
     crash.enumerate_crashes(ctx, 'C03', progs, classes, cap=5 if ctx.quick() else 10)
+    # the committed crash programs: transactions of large values around the 64 KB log buffer with an unsynced log
+    import vlib
+    cprogs = vlib.read_ndjson(os.path.join(vlib.ROOT, 'corpus', 'crash.ndjson'))
+    crash.enumerate_crashes(ctx, 'C03', cprogs, [crash.CRASH_CLASSES[4]], cap=3 if ctx.quick() else 10)
     write_evidence(ctx, 'model_checking',
                    'KevoTxn (CommitIsOneStep, RollbackLeavesNoTrace) and KevoStore=>KevoDurable (a batch is one log element) model-checked; '
                    'bound to the code by (1) gated interleavings: the committer is parked at each hook site of its commit (lock taken, batch '
